@@ -550,6 +550,26 @@ Proof.
   split; [exact R1|split; [exact R2|split; [lia|exact R4]]].
 Qed.
 
+(* ALL INPUT IS CONSUMED: when feed() answers "done" (TokenizerResult::Done) the queue is empty - whatever the tokenizer
+   still holds back (an eat() look-ahead, a pending character reference) lives in its own buffers, not in the input *)
+Lemma feed_consumes fuel (m : M) : TIc m -> K m -> (bound (Tlc m) <= fuel)%nat ->
+  snd (feedF fuel m) = SSuspend -> mq (fst (feedF fuel m)) = [].
+Proof.
+  intros HI HK Hf. unfold feed. destruct (fq_peek (mq m)) as [c|] eqn:Hp.
+  2:{ cbn [fst snd]. intros _. destruct (mq m); [reflexivity|discriminate Hp]. }
+  match goal with |- context [runF false fuel ?X] => set (m1 := X) end.
+  assert (E : cv m1 = cv m /\ (qn m1 <= qn m)%nat).
+  { subst m1. destruct (discard_bom (mc m)); [|split; [reflexivity|lia]].
+    destruct (c =? BOM); [|destruct m as [cf q o k]; destruct cf; split; [reflexivity|unfold qn; cbn; lia]].
+    destruct m as [cf q o k]; destruct q as [|d q']; [discriminate Hp|]. destruct cf; split; [reflexivity|unfold qn; cbn; lia]. }
+  destruct E as [E1 E2].
+  assert (H1 : TIc m1) by (eapply TI_same; eassumption).
+  assert (H1k : K m1) by (destruct HK as [A B]; destruct (cv_inv _ _ E1) as (Z1 & _ & _ & Z4); split; [congruence|intros X; rewrite Z1; apply B; congruence]).
+  assert (H2 : (Tlc m1 <= Tlc m)%nat) by (rewrite (Tl_same _ _ _ E1); lia).
+  assert (Hf1 : (bound (Tlc m1) <= fuel)%nat) by (pose proof (run_bound_mono R _ _ H2); lia).
+  pose proof (run_total false fuel m1 H1 H1k Hf1) as (_ & _ & _ & _ & R5). exact R5.
+Qed.
+
 (* a log entry of a feed loop: done, script pause, encoding indicator, or the driver's pause limit *)
 Definition feed_ok (r : sres) : Prop := fine r \/ r = SPanic 96.
 
@@ -582,6 +602,33 @@ Proof.
       destruct (IH m1 (SEncoding :: log) F1 F1k Hf2) as (I1 & I1k & I2 & I3); [constructor; [left; right; right; reflexivity|exact HL]|].
       split; [exact I1|split; [exact I1k|split; [lia|exact I3]]].
 Qed.
+
+(* the same for the driver's feed loop (script pauses with injected text in between): when its last answer is "done" the
+   queue is empty *)
+Lemma feed_loop_consumes fuel inj : forall n (m : M) log, TIc m -> K m -> (bound (Tlc m + n * length inj) <= fuel)%nat ->
+  hd (SPanic 0) (snd (feed_loopF n fuel inj m log)) = SSuspend ->
+  mq (fst (feed_loopF n fuel inj m log)) = [].
+Proof.
+  induction n as [|n IH]; intros m log HI HK Hf; cbn [feed_loop]; [cbn [snd hd]; discriminate|].
+  assert (Hf0 : (bound (Tlc m) <= fuel)%nat) by (pose proof (run_bound_mono R (Tlc m) (Tlc m + Datatypes.S n * length inj) ltac:(lia)); lia).
+  pose proof (feed_total fuel m HI HK Hf0) as (F1 & F1k & F2 & F3).
+  pose proof (feed_consumes fuel m HI HK Hf0) as FC.
+  destruct (feedF fuel m) as [m1 r]. cbn [fst snd] in *.
+  destruct r; try (cbn [fst snd hd]; intros X; first [exact (FC X)|discriminate X]).
+  - (* script pause: inject and go on *)
+    set (m2 := m1 <| mq ::= app inj |>).
+    assert (E : cv m2 = cv m1 /\ qn m2 = (length inj + qn m1)%nat)
+      by (subst m2; destruct m1 as [cf q o k]; split; [reflexivity|unfold qn; cbn; rewrite app_length; lia]).
+    destruct E as [E1 E2].
+    assert (H2 : TIc m2) by (eapply TI_same; eassumption).
+    assert (H2k : K m2) by (destruct F1k as [A B]; destruct (cv_inv _ _ E1) as (Z1 & _ & _ & Z4); split; [congruence|intros X; rewrite Z1; apply B; congruence]).
+    assert (H3 : Tlc m2 = (Tlc m1 + length inj)%nat) by (rewrite (Tl_same _ _ _ E1); lia).
+    intros X. apply (IH m2 (SScript :: log) H2 H2k); [|exact X].
+    pose proof (run_bound_mono R (Tlc m2 + n * length inj) (Tlc m + Datatypes.S n * length inj) ltac:(lia)). lia.
+  - intros X. apply (IH m1 (SEncoding :: log) F1 F1k); [|exact X].
+    pose proof (run_bound_mono R (Tlc m1 + n * length inj) (Tlc m + Datatypes.S n * length inj) ltac:(lia)). lia.
+Qed.
+
 
 (* the log of the driver: the answer of end() first, then the feed entries *)
 Definition log_ok (log : list sres) : Prop := exists r rest, log = r :: rest /\ end_ok r /\ Forall feed_ok rest.
